@@ -399,8 +399,13 @@ void vf::run_case(Src &s, Ctx &c)
     // validity of what was introduced
     PathVerdict v = checkPath(*P, out, false, true, false);
     c.stat("invalid-run/r", v.worstRun);
-    if (!v.ok())
-        c.failOrKnown("C17/" + v.key + rkey, vf::fmt("%s (%s, %s): output %s", rn[routine], shapeName[shape], objN[objKind], v.msg.c_str()));
+    // the combined routines answer false when they could not leave a valid path behind ("returns false iff the simplified path is not
+    // valid"): the statement promises validity when they report success
+    const bool combinedReportedFailure = (routine == 7 || routine == 8) && !ret;
+    if (combinedReportedFailure)
+        c.count(v.ok() ? "combined:returned-false(path fine)" : "combined:returned-false(path invalid, as reported)");
+    if (!v.ok() && !combinedReportedFailure)
+        c.failOrKnown("C17/" + v.key + rkey, vf::fmt("%s (%s, %s): output %s (routine returned %s)", rn[routine], shapeName[shape], objN[objKind], v.msg.c_str(), ret ? "true" : "false"));
     const double len1 = out.length();
     if (lengthMonotone && P->ps.space->isMetricSpace())
         VCHECK(c, len1 <= len0 * (1 + 1e-9) + 1e-9, "C17/longer" + rkey, "%s returned a longer path: %.9g -> %.9g", rn[routine], len0, len1);
